@@ -22,6 +22,7 @@ type CheckCfg struct {
 	PaperSteps    []string          `json:"paper_steps"`
 	Assumptions   []string          `json:"assumptions"`
 	MinObligations int              `json:"min_obligations"`
+	ExpectedUnreachable map[string]string `json:"expected_unreachable"` // return points the contracts make unreachable on the unchanged tree -> why
 	Bounded       []BoundedCfg      `json:"bounded"`
 }
 
